@@ -214,7 +214,7 @@ func (c *fnCtx) sbEvent(name, n string, r *Val) {
 		h := c.heapGet(initKey)
 		sl := r.F[0]
 		c.heapSet(initKey, c.em.define("Hin", c.em.keySort(initKey), "(store "+h+" "+sl.T[0]+" ((as const (Array Int Bool)) false))"))
-		root.windows = append(root.windows, window{sl: sl, err: r.F[1], reach: c.reach[c.curB], pos: c.curPos})
+		root.windows = append(root.windows, window{sl: sl, err: r.F[1], reach: c.reach[c.curB], pos: c.curPos, block: c.curB, ctx: c})
 	}
 }
 
@@ -223,6 +223,41 @@ type window struct {
 	err   *Val
 	reach string
 	pos   token.Pos
+	block *ssa.BasicBlock
+	ctx   *fnCtx
+}
+
+// initBackEdge: a window obtained inside a loop body belongs to one iteration (the loop is cut at its head, so no
+// return of the function sees it): it has to be fully written when the iteration ends.
+func (c *fnCtx) initBackEdge(li *loopInfo, from *ssa.BasicBlock, guard string) {
+	if !c.initOn() || c.mute || c.inlineOf != nil {
+		return
+	}
+	root := c.root()
+	saved := c.st
+	c.st = c.hout[from].clone()
+	c.em.regKey(initKey, "Bool", true)
+	h := c.heapGet(initKey)
+	c.st = saved
+	for wi, w := range root.windows {
+		if w.ctx != c || w.block == nil || !li.blocks[w.block] {
+			continue
+		}
+		inner := false
+		for _, l2 := range c.loops {
+			if l2 != li && l2.blocks[w.block] && li.blocks[l2.header] && l2.header != li.header {
+				inner = true // obtained in a nested loop: checked at that loop's back edge
+			}
+		}
+		if inner {
+			continue
+		}
+		cond := fmt.Sprintf("(forall ((k Int)) (=> (and (<= 0 k) (< k %s)) (select (select %s %s) (+ %s k))))", w.sl.T[2], h, w.sl.T[0], w.sl.T[1])
+		g := fmt.Sprintf("(and %s %s (= %s 0))", guard, w.reach, w.err.T[0])
+		o := &Obl{Class: "init", Fn: c.fnName(), Pos: c.eng.prog.Fset.Position(w.pos), Text: "window obtained in the loop body fully written at the end of the iteration", Guard: g, Cond: cond}
+		o.Name = fmt.Sprintf("%s#init:win%d/loop%d:back%d", o.Fn, wi, li.ord, from.Index)
+		c.obls = append(c.obls, o)
+	}
 }
 
 // initObligations: at each return with a nil error every window obtained on the path is fully written.
